@@ -94,7 +94,7 @@ def calibrate_all(qt, spec, datasets, cal=None):
   return cal
 
 
-def pipeline(spec, datasets, rules=None, recipe=None, cal=None, warm_rules=None):
+def pipeline(spec, datasets, rules=None, recipe=None, cal=None, warm_rules=None, warm_other=False):
   """Runs the public API.  Exactly one of rules / recipe is given.  warm_rules: rules applied, calibrated and quantized on the SAME
   Quantizer first (outcome ignored) -- a history that must not matter when `rules` then replace them."""
   r = Run()
@@ -110,13 +110,27 @@ def pipeline(spec, datasets, rules=None, recipe=None, cal=None, warm_rules=None)
         r.mutations.append('recipe')
     else:
       qt = aeq_quantizer.Quantizer(content)
-      if warm_rules:
+      other = None
+      if warm_rules and warm_other:
+        # ANOTHER live Quantizer on the same model is configured first and quantized just before this one quantizes
+        other = aeq_quantizer.Quantizer(content)
+        try:
+          if not recipes.apply_rules(other, warm_rules):
+            other = None
+        except Exception:  # pylint: disable=broad-except
+          other = None
+      elif warm_rules:
         try:
           if recipes.apply_rules(qt, warm_rules):
             qt.quantize(calibrate_all(qt, spec, datasets) if qt.need_calibration else None)
         except Exception:  # pylint: disable=broad-except
           pass
       r.accepted = recipes.apply_rules(qt, rules)
+      if other is not None:
+        try:
+          other.quantize(calibrate_all(other, spec, datasets) if other.need_calibration else None)
+        except Exception:  # pylint: disable=broad-except
+          pass
       if not r.accepted:
         r.phase = 'no_rule_accepted'
         return r
